@@ -44,7 +44,7 @@ claims={
    note=TB+"; netip.ParseAddr/Is4, strconv.ParseUint, dns.Fqdn, strings.Split enter as assumed contracts; the key set of dnsRewriteRRHandlers is read from the package initialiser and the map is checked syntactically never to be written elsewhere.",
    ref="5 C10", tech="contract-based deductive verification: WP over go/ssa, function-type contract with refinement obligations"),
  "C20":dict(level="proof",
-   text="findBodyInjectionIndex is proved (loop invariant, any body length) to return the first position inside the inspected prefix - the first min(16384, len) characters - at which one of the four markers occurs case-insensitively, or -1 when there is none; filterHTML is proved to publish, on success, a body equal to the transcoding of T when there is no injection point and of T[:i] + tag + T[i:] at the injection point i otherwise (T = the decompressed body transcoded from Latin-1; exactly one splice, nothing dropped or duplicated), and a ContentLength equal to the length of that new body; all slice/index/nil obligations of the three functions are discharged.",
+   text="findBodyInjectionIndex is proved (loop invariant, any body length) to return the first position inside the inspected prefix - the first min(16384, len) characters - at which one of the four markers occurs case-insensitively, or -1 when there is none; filterHTML is proved to publish, on success, a body equal to the transcoding of T when there is no injection point and of T[:i] + tag + T[i:] at the injection point i otherwise (T = the decompressed body transcoded from Latin-1; exactly one splice, nothing dropped or duplicated), a ContentLength equal to the length of that new body and no Content-Encoding header; all slice/index/nil obligations of the three functions are discharged.",
    note=TB+"; gzip and the Latin-1 codec (proxyutil.ReadDecompressedBody/DecodeLatin1/EncodeLatin1), bytes.NewReader, io.NopCloser, Header.Del, strings.EqualFold and math.Min are assumed contracts that only NAME their results through ghost functions; that the codec maps each original byte to one character and back (so that the statement about T is the statement about the original bytes, and the 16 KiB window is measured on T) is the documented behaviour of the codec and is not machine-checked; floats are mathematical reals; the tag is whatever buildInjectionCode returns (named, not specified). filterHTML's precondition (a response with a body and a header map) is the caller's obligation (onResponse is not under contract).",
    ref="5 C20", tech="contract-based deductive verification: WP over go/ssa, loop invariant, ghost functions for library values, SMT portfolio"),
  "C16":dict(level="proof",
